@@ -57,10 +57,35 @@ def build_input(c, s, shape, rnd):
         free_cells.append(cell)
         free_ids.append(cid)
     parents, group_ids = [], []
+    drop = shape.get("drop")
     for n, (rp, lv) in enumerate(shape.get("groups", [])):
         P, pid = shapes.symid(c, "P%d" % n, rp)
-        parents.append(P)
-        group_ids.extend(s.cell_to_children(pid, rp + lv))
+        kids = s.cell_to_children(pid, rp + lv)
+        if drop is not None and n == 0:
+            # 'holey' group: one child is left out (the region is then the remaining children)
+            kept = [k for i, k in enumerate(kids) if i != drop % len(kids)]
+            for k in kept:
+                parents.append(s.deserialize(k))
+            group_ids.extend(kept)
+        else:
+            parents.append(P)
+            group_ids.extend(kids)
+    # cascade: Q's children, one of them given as ITS complete children (must compact to Q in >= 2 passes)
+    for n, (rq, j) in enumerate(shape.get("cascade", [])):
+        Q, qid = shapes.symid(c, "Q%d" % n, rq)
+        parents.append(Q)
+        kids = s.cell_to_children(qid, rq + 1)
+        for i, k in enumerate(kids):
+            if i == j % len(kids):
+                group_ids.extend(s.cell_to_children(k, rq + 2))
+            else:
+                group_ids.append(k)
+    # run: `count` consecutive cells of one resolution in id order from a symbolic, not necessarily
+    # group-aligned start (the region is the union of the run's cells)
+    for n, (rr, count) in enumerate(shape.get("runs", [])):
+        for cell, cid in run_cells(c, s, "R%d" % n, rr, count):
+            parents.append(cell)
+            group_ids.append(cid)
     ids = list(group_ids)
     for cid in free_ids:
         ids.insert(rnd.randint(0, len(ids)), cid)
@@ -69,12 +94,41 @@ def build_input(c, s, shape, rnd):
     return ids, free_cells, parents
 
 
+def run_cells(c, s, prefix, rr, count):
+    """count consecutive valid cells at resolution rr (consecutive in the hierarchical enumeration:
+    position S, then normalised segment, then face), starting at a symbolic cell."""
+    out = []
+    if rr == 0:
+        f0 = c.int(prefix + ".face", 0, 12 - count)
+        for k in range(count):
+            cell = shapes.mkcell(f0 + k, 0, 0, 0)
+            out.append((cell, s.serialize(cell)))
+        return out
+    if rr == 1:
+        t0 = c.int(prefix + ".top6", 0, 60 - count)
+        for k in range(count):
+            t = t0 + k
+            org = s.origins[t // 5]
+            seg = (t % 5 + org.first_quintant) % 5
+            cell = shapes.A5Cell(origin=org, segment=seg, S=0, resolution=1)
+            out.append((cell, s.serialize(cell)))
+        return out
+    f = c.int(prefix + ".face", 0, 11)
+    g = c.int(prefix + ".segment", 0, 4)
+    S0 = c.int(prefix + ".S", 0, 4 ** (rr - 1) - count)
+    for k in range(count):
+        cell = shapes.mkcell(f, g, S0 + k, rr)
+        out.append((cell, s.serialize(cell)))
+    return out
+
+
 def rnd_seed(shape, seed):
     return seed * 7919 + zlib.crc32(repr(sorted(shape.items())).encode())
 
 
 def finest(shape):
     rs = list(shape.get("free", [])) + [rp + lv for rp, lv in shape.get("groups", [])]
+    rs += [rq + 2 for rq, j in shape.get("cascade", [])] + [rr for rr, n in shape.get("runs", [])]
     return max(rs)
 
 
@@ -87,6 +141,10 @@ def h_compact(c, shape, mode, seed=0):
         # precondition of C09: no cell is an ancestor of another (equal cells allowed)
         for i in range(len(tops)):
             for j in range(i + 1, len(tops)):
+                if i >= len(free_cells) and j >= len(free_cells) and not shape.get("groups") or \
+                        (i >= len(free_cells) and j >= len(free_cells) and len(shape.get("groups", [])) < 2
+                         and not shape.get("cascade")):
+                    continue     # cells of one structured family are disjoint by construction
                 a, b = tops[i], tops[j]
                 both_free = i < len(free_cells) and j < len(free_cells)
                 ok = sx.And(sx.Not(shapes.anc(a, b)), sx.Not(shapes.anc(b, a)))
@@ -224,10 +282,28 @@ print("ok")
                        for n, (rp, lv) in enumerate(shape.get("groups", [])))
     tag = "free=%s;groups=%s" % ("/".join(map(str, shape.get("free", []))),
                                  "/".join("%d+%d" % tuple(g) for g in shape.get("groups", [])))
+    for key in ("drop", "cascade", "runs"):
+        if shape.get(key) is not None:
+            tag += ";%s=%s" % (key, str(shape[key]).replace(" ", ""))
     return PRE + """
 free = [%s]; groups = [%s]
+drop, cascade, runs, runstart = %r, %r, %r, %r
 ids = []
-for pid, b in groups: ids.extend(cell_to_children(pid, b))
+for n, (pid, b) in enumerate(groups):
+    kids = cell_to_children(pid, b)
+    if drop is not None and n == 0: kids = [k for i, k in enumerate(kids) if i != drop %% len(kids)]
+    ids.extend(kids)
+for (rq, j), q in zip(cascade, %s):
+    kids = cell_to_children(q, rq + 1)
+    for i, k in enumerate(kids):
+        ids.extend(cell_to_children(k, rq + 2) if i == j %% len(kids) else [k])
+for (rr, count), st in zip(runs, runstart):
+    for k in range(count):
+        if rr == 0: ids.append(mk(st["face"] + k, 0, 0, 0))
+        elif rr == 1:
+            t = st["top6"] + k; f = t // 5
+            ids.append(mk(f, (t %% 5 + origins[f].first_quintant) %% 5, 0, 1))
+        else: ids.append(mk(st["face"], st["segment"], st["S"] + k, rr))
 rnd = random.Random(%d)
 for x in free: ids.insert(rnd.randint(0, len(ids)), x)
 if %r: ids.append(ids[rnd.randint(0, len(ids) - 1)])
@@ -252,4 +328,8 @@ else:
         bad("compact-not-canonical:%s:" + ("unmerged-group" if len(got) > len(ref) else "other"))
     if set(compact(list(Y))) != set(Y): bad("compact-not-idempotent:%s")
 print("ok")
-""" % (free, groups, rnd_seed(shape, p.get("seed", 0)), bool(shape.get("dup")), tag, tag, mode, tag, tag, tag, tag, tag, tag)
+""" % (free, groups, shape.get("drop"), [list(x) for x in shape.get("cascade", [])], [list(x) for x in shape.get("runs", [])],
+       [{k.split(".")[1]: v for k, v in inp.items() if k.startswith("R%d." % n)} for n in range(len(shape.get("runs", [])))],
+       "[" + ", ".join("mk(%d,%d,%d,%d)" % (inp.get("Q%d.face" % n, 0), inp.get("Q%d.segment" % n, 0), inp.get("Q%d.S" % n, 0), rq)
+                       for n, (rq, j) in enumerate(shape.get("cascade", []))) + "]",
+       rnd_seed(shape, p.get("seed", 0)), bool(shape.get("dup")), tag, tag, mode, tag, tag, tag, tag, tag, tag)
